@@ -257,24 +257,23 @@ def noSpace (cannotFit : Bool) (s : St) : Bool × St :=
 def withUseCur (f : St → St) (s : St) : St :=
   (f (s.setUseCur true)).setUseCur false
 
-/-- after the close of `_reserve_er_space`'s second test: ask the back end, reopen, assert (l.222-233) -/
-def reopenAfterClose (cfg : Cfg) (d : DST) (erSize : Nat) (s : St) : Bool × St :=
+/-- after the close of `_reserve_er_space`'s second test: ask the back end, reopen -/
+def reopenAfterClose (cfg : Cfg) (d : DST) (s : St) : Bool × St :=
   let r := cbFull s
-  if r.1 then noSpace false r.2 else
-  let s := withUseCur (cbOpen cfg d) r.2
-  if erSize ≤ s.c.room s.c.at_ then (true, s)
-  else (true, (s.ev .assertFail).halt)
+  if r.1 then noSpace false r.2 else (true, withUseCur (cbOpen cfg d) r.2)
 
-/-- the tail of `_reserve_er_space` from "Event fits the current packet?" on (l.214-236) -/
+/-- the tail of `_reserve_er_space` from "Event fits the current packet?" on -/
 def reserveTail (cfg : Cfg) (d : DST) (erSize : Nat) (s : St) : Bool × St :=
   if s.halted then (false, s) else
   if erSize > s.c.room s.c.at_ then
-    reopenAfterClose cfg d erSize (withUseCur (cbClose cfg d) s)
+    reopenAfterClose cfg d (withUseCur (cbClose cfg d) s)
   else (true, s)
 
-/-- `_reserve_er_space` l.190-244, tests in source order -/
-def reserve (cfg : Cfg) (d : DST) (erSize : Nat) (s : St) : Bool × St :=
-  if erSize > s.c.room s.c.offContent then noSpace true s else
+/-- `_reserve_er_space`, tests in source order.  `erSize` is the record's size at the current
+    position, `emptySize` its size at the beginning of the packet content (an event record's size
+    depends on its offset because of alignment). -/
+def reserve (cfg : Cfg) (d : DST) (erSize emptySize : Nat) (s : St) : Bool × St :=
+  if emptySize > s.c.room s.c.offContent then noSpace true s else
   if s.c.isFull then
     let r := cbFull s
     if r.1 then noSpace false r.2 else
@@ -318,15 +317,31 @@ def traceWrite (cfg : Cfg) (d : DST) (e : ERT) (args : Args) (s : St) : St :=
   let s := commit cfg d s
   if s.halted then s else s.setFlag false
 
-/-- the tracing function after `_reserve_er_space` returned (l.533-552) -/
-def traceAfterReserve (cfg : Cfg) (d : DST) (e : ERT) (args : Args) (r : Bool × St) : St :=
+/-- the record's size after `_reserve_er_space` returned: computed again if the position changed
+    (the packet was switched) -/
+def sizeAfterReserve (d : DST) (e : ERT) (args : Args) (erAt erSize : Nat) (s : St) : Nat :=
+  if s.c.at_ != erAt then erSizeAt d e args s.c.at_ else erSize
+
+/-- the tracing function after `_reserve_er_space` returned: if the packet was switched the record's
+    size is computed again at the new position; the record is discarded if it does not fit -/
+def traceAfterReserve (cfg : Cfg) (d : DST) (e : ERT) (args : Args) (erAt erSize : Nat) (r : Bool × St) : St :=
   if r.2.halted then r.2 else
   if !r.1 then r.2.setFlag false else
-  traceWrite cfg d e args r.2
+  if sizeAfterReserve d e args erAt erSize r.2 > r.2.c.room r.2.c.at_ then (noSpace true r.2).2.setFlag false
+  else traceWrite cfg d e args r.2
 
-/-- the tracing function after the enable test passed (l.524-556); entered with the flag raised -/
+/-- the tracing function after the enable test passed; entered with the flag raised -/
 def traceEnabled (cfg : Cfg) (d : DST) (e : ERT) (args : Args) (s : St) : St :=
-  traceAfterReserve cfg d e args (reserve cfg d (erSizeAt d e args s.c.at_) s)
+  traceAfterReserve cfg d e args s.c.at_ (erSizeAt d e args s.c.at_)
+    (reserve cfg d (erSizeAt d e args s.c.at_) (erSizeAt d e args s.c.offContent) s)
+
+/-- hypothesis `SizeStable` of DESIGN.md, evaluated on one tracing call: the record size computed at the
+    entry offset equals its size at the content offset (test (a) of `_reserve_er_space`) and at the offset
+    where it is finally written.  Not part of the tracer; used to classify finding F8. -/
+def sizeStableCall (cfg : Cfg) (d : DST) (e : ERT) (args : Args) (s : St) : Bool :=
+  let sz := erSizeAt d e args s.c.at_
+  let r := reserve cfg d sz (erSizeAt d e args s.c.offContent) (s.setFlag true)
+  sz == erSizeAt d e args s.c.offContent && (!r.1 || sz == erSizeAt d e args r.2.c.at_)
 
 /-- the tracing function from the test of `is_tracing_enabled` on (l.520-556) -/
 def traceBody (cfg : Cfg) (d : DST) (e : ERT) (args : Args) (s : St) : St :=
